@@ -77,7 +77,7 @@ class World:
 
     def __init__(self, rng: random.Random, *, n_veh=(2, 6), n_stn=(1, 3), n_base=(1, 2), dt_choices=(1, 7, 30, 60, 90),
                  search_res: int = 9, with_ice: bool = True, with_fleets: bool = True, with_humans: bool = True,
-                 queue_scenario: bool = False):
+                 queue_scenario: bool = False, base_scenario: bool = False):
         """`queue_scenario`: one public station with a single plug type and one or two plugs, every
         vehicle standing at it with a half-empty battery (C18)"""
         self.rng = rng
@@ -130,10 +130,14 @@ class World:
             return Membership.from_tuple(FLEETS)
 
         if queue_scenario:
-            with_fleets = False
             with_humans = False
             n_stn = (1, 1)
-            members = lambda: Membership()  # noqa: E731
+        if base_scenario:
+            # contention for the plugs behind a base: one station with one plug of one type, one base at the
+            # same place served by it with room for everybody, every vehicle standing there
+            n_stn = (1, 1)
+            n_base = (1, 1)
+        self.base_scenario = base_scenario
         self.queue_scenario = queue_scenario
         self.members = members
         n_s = rng.randint(*n_stn)
@@ -150,9 +154,9 @@ class World:
         stations = []
         for sid in self.station_ids:
             kinds = rng.sample(sorted(CHARGERS.keys()), rng.randint(1, 3))
-            if queue_scenario:
+            if queue_scenario or base_scenario:
                 kinds = [rng.choice(["DCFC", "LEVEL_2"])]
-            chargers = immutables.Map({k: rng.randint(1, 2) for k in kinds})
+            chargers = immutables.Map({k: (1 if base_scenario else rng.randint(1, 2)) for k in kinds})
             on_shift = frozenset(k for k in kinds if rng.random() < 0.7)
             st = Station.build(
                 station_id=sid,
@@ -160,7 +164,7 @@ class World:
                 road_network=self.net,
                 chargers=chargers,
                 on_shift_access=on_shift,
-                membership=members(),
+                membership=Membership() if (queue_scenario or base_scenario) else members(),
                 env=self.env,
             )
             # non-trivial tariffs
@@ -170,6 +174,8 @@ class World:
         bases = []
         for bid in self.base_ids:
             r = rng.random()
+            if base_scenario:
+                r = 0.0
             if r < 0.6 and stations:
                 st = rng.choice(stations)
                 cell, station_id = st.geoid, st.id
@@ -178,7 +184,8 @@ class World:
                 cell, station_id = rng.choice(self.cells), rng.choice(stations).id
             else:
                 cell, station_id = rng.choice(self.cells), None
-            bases.append(Base.build(bid, cell, self.net, station_id, rng.randint(1, 2), members()))
+            bases.append(Base.build(bid, cell, self.net, station_id, 8 if base_scenario else rng.randint(1, 2),
+                                    Membership() if base_scenario else members()))
         vehicles = []
         for vid in self.vehicle_ids:
             mech = self.ice if (with_ice and rng.random() < 0.25) else self.bev
@@ -194,6 +201,9 @@ class World:
             pos = self.net.position_from_geoid(rng.choice(self.cells))
             if queue_scenario and rng.random() < 0.85:
                 pos = stations[0].position
+            if base_scenario and rng.random() < 0.9:
+                pos = bases[0].position
+                soc = rng.uniform(0.3, 0.9)
             vehicles.append(
                 Vehicle(
                     id=vid,
